@@ -141,6 +141,23 @@ class Env:
             import torch_semiring_einsum as tse
             A = tse.AUTOMATIC_BLOCK_SIZE
             self._patch(A, 'max_cpu_bytes', int(cfg['block_bytes']))
+            self.c.inc('fault.block-budget.configured')
+            # measure what actually fired: einsum calls whose summation was split into more than one block
+            import torch_semiring_einsum.equation as tse_eq
+            orig_b2i = tse_eq.block_sizes_to_indexes
+            c_ = self.c
+
+            def _b2i(sizes, block_sizes):
+                sizes = list(sizes)
+                block_sizes = list(block_sizes)
+                nb = 1
+                for sz, bs in zip(sizes, block_sizes):
+                    nb *= -(-sz // max(1, bs))
+                c_.inc('einsum.summations-under-budget')
+                if nb > 1:
+                    c_.inc('fault.block-budget.fired')
+                return orig_b2i(sizes, block_sizes)
+            self._patch(tse_eq, 'block_sizes_to_indexes', _b2i)
         # linalg failure
         if cfg.get('linalg_fail'):
             lf = LinalgFault(torch.linalg.solve, cfg['linalg_fail'], self.c)
